@@ -42,7 +42,7 @@ TYPES = {"str": str, "int": int, "float": float, "bool": bool, "list": list, "tu
          "set": set, "frozenset": frozenset, "NoneType": type(None), "bytes": bytes}
 COQ_TY = {"str": "TStr", "int": "TInt", "float": "TFloat", "bool": "TBool", "list": "TList", "tuple": "TTuple",
           "dict": "TDict", "set": "TSet", "frozenset": "TFrozen", "NoneType": "TNone", "bytes": "TBytes"}
-DEFECTS = ["K16", "K16b", "K16c", "K16e", "K16f", "K16h", "K16i"]      # switches of the reference search
+DEFECTS = ["K16", "K16b", "K16c", "K16e", "K16f", "K16h"]      # switches of the reference search
 FINDINGS = DEFECTS + ["K16g"]
 CONTAINERS = (list, tuple, dict, set, frozenset)
 
@@ -151,12 +151,10 @@ def ref_search(obj, item, kw, emulate=()):
             src = item if is_text_item else needle
             pattern = re.compile(src, re.IGNORECASE if folding else 0)
 
-    def rx_search(text, folded_text, number_text=False):
+    def rx_search(text, folded_text):
         if type(pattern.pattern) is not type(text):
-            # a str pattern is not found in bytes and vice versa (K16d, fixed by /repo 9553299 / 49764d9);
-            # as written a bytes pattern applied to the text of a number still raises (K16i)
-            if number_text and "K16i" in E:
-                raise RefRaise()
+            # a str pattern is not found in bytes and vice versa, a bytes pattern matches neither a path
+            # text nor the text of a number (K16d / K16i, fixed by /repo 9553299, 49764d9, bcd9dc1)
             return False
         if "K16c" in E:
             return bool(pattern.search(folded_text))
@@ -184,7 +182,7 @@ def ref_search(obj, item, kw, emulate=()):
                     return True
                 # the text of the number is searched with the pattern (no folding of the
                 # text in the code: only visible for 'True'/'False')
-                return rx_search(txt, txt, number_text=True)
+                return rx_search(txt, txt)
             return False
         if isinstance(v, CONTAINERS):
             # a container matches when it equals a container item (documented nowhere in detail;
@@ -643,7 +641,6 @@ WITNESSES = {
     "K16": ({'a': 1.5, 'b': 'x1.5'}, '1.5', {"exclude_types": ["float"], "strict_checking": False}),
     "K16b": ({'a': 1}, 'a', {"exclude_paths": ["root['a']"]}),
     "K16c": (['abc'], '\\S+', {"use_regexp": True}),
-    "K16i": ([1], b'1', {"use_regexp": True, "strict_checking": False}),
     "K16e": ([True], 'True', {"strict_checking": False}),
     "K16f": ({None: 'a'}, None, {}),
     "K16g": ({"a'b": 'x'}, 'x', {}),
@@ -806,6 +803,8 @@ def witnesses(ctx):
             (['abc', b'abc'], b'a', {}),
             ([b'abc', 'abc', {'a': b'a'}], 'a', {"use_regexp": True}),
             ({b'a': 1, 'a': b'a'}, b'a', {"use_regexp": True}),
+            ([1, b'1', '1', 1.0], b'1', {"use_regexp": True, "strict_checking": False}),     # former K16i witness
+            ([1, b'1', '1', 21], '1', {"use_regexp": True, "strict_checking": False}),
             ([[1.0, 2], {'k': [[1, 2], (1, 2)]}, [[1, 2, 3]]], [1, 2], {}),
             ([{'a': 1}, {1, 2}, frozenset({1, 2}), {'x': {'a': 1}}], {'a': 1}, {}),
             ([{1, 2}, frozenset({1, 2}), [1, 2]], {1, 2}, {"exclude_types": ["set"]}),
